@@ -11,7 +11,7 @@ def hook_commits():
         return []
 
 # ids whose check exists in the harness (keep in sync with harness/src/props/mod.rs)
-IMPLEMENTED = ["C01", "C02", "C03", "C18", "C22"]
+IMPLEMENTED = ["C01", "C02", "C03", "C05", "C06", "C07", "C08", "C16", "C17", "C18", "C19", "C22"]
 
 PBT = "property-based testing (proptest byte-driven generators, 16 seeded runners, shrinking to a replay file)"
 REFI = "Trusts the harness's reference unifier/interpreter (model/*.rs, small and independent of the implementation) and the finite universe used for instance comparison."
@@ -26,9 +26,30 @@ TABLE = {
  "C03": (PBT + " with per-answer invariants (closedness, constraint relevance by own traversal) and a reference interpreter for sharing/distinctness of reified variables",
          "Every answer of generated list/compound programs is checked for `_`-only variables, constraints over answer variables only, LResult::constraints() completeness through lists and compounds, and equivalence with the reference answer. Exploration.",
          REFI),
+ "C05": (PBT + " against a reference depth-first interpreter, position by position, observed through a ticket fngoal (engine order) and at the iterator",
+         "Generated search programs (nested cond/conjunction/fresh/closure, list relations on literal lists) wrapped in dfs{}: the order in which states leave the depth-first block and the order at the iterator must both equal the reference's Prolog order. Exploration.",
+         REFI),
+ "C06": (PBT + ": differential interleaving vs depth-first vs reference interpreter (finite trees); soundness of bounded prefixes of infinite streams against reference set semantics",
+         "Finite search programs must have equal answer multisets under interleaving search, under dfs{} and in the reference; for programs with infinite producers ground instances of the first 25 answers must be solutions. Exploration.",
+         REFI),
+ "C07": (PBT + ": bounded liveness in engine steps (step-counter hook): obligations from each branch run alone must appear in the whole disjunction within a generous step bound",
+         "Disjunctions mixing finite goals, infinite producers and silent divergers at several nesting positions; each branch's first answers (run alone) must be produced by the whole disjunction within 256x their cost + 10000 steps (10x confirm run). Decides starvation/divergence, not mere slowness. Exploration.",
+         "Needs the cfg-guarded step counter in StreamEngine::step; bounded liveness only."),
+ "C08": (PBT + ": metamorphic relation between a committed-choice program and the program with the committed head (conda) or its first head answer re-imposed (condu/onceo); reference interpreter for conda and matcha/matchu",
+         "conda/condu/onceo over generated heads with 0/1/many/lazy/infinite answers and generated rest goals; matcha/matchu built dynamically. Exploration.",
+         REFI),
+ "C16": (PBT + " against brute-force enumeration of the domain product (soundness verdict)",
+         "Generated CLP(FD) programs with aliasing, signed domains, sparse domains, hidden variables, shuffled posting order, list/compound query terms; every answer must be a brute-force solution. Exploration.",
+         "Trusts the brute-force model (model/fdbrute.rs)."),
+ "C17": (PBT + " against brute-force enumeration of the domain product (completeness and uniqueness verdict)",
+         "Same generator as C16; every brute-force solution projected on the query term must be returned exactly once. Exploration.",
+         "Trusts the brute-force model (model/fdbrute.rs)."),
  "C18": (PBT + " against a BTreeSet reference model + exhaustive enumeration of all subset pairs of a 6-value window in thorough",
          "Every public FiniteDomain operation is compared with a BTreeSet model on millions of domain pairs in both representations and both argument orders, plus O(1) operations on extreme isize bounds; thorough also enumerates a finite sub-space completely. Exploration.",
          "Trusts std BTreeSet and the harness's small model; domains are non-empty."),
+ "C19": (PBT + " against an integer-arithmetic fixpoint oracle; exhaustive enumeration of one constraint over all groundness patterns, posting orders and values -2..=2 in both tiers",
+         "plusz/timesz programs with bindings in every order, aliasing and chains: consistent => exactly the determined integers, inconsistent => no answer, 0*r=0 leaves r free, never a panic; undecided (algebra) cases get soundness only. Exploration plus a completely enumerated sub-space.",
+         "Trusts the 80-line arithmetic oracle in props/c19.rs."),
  "C22": (PBT + " with an instrumented User type: history invariants at probe goals after every goal, and reference path traces",
          "Generated programs run with a User type counting with_constraint/take_constraint/process_extension; balance with the store size is checked at a probe after every goal (also on failing branches), at the end of the body and after reification; extension bindings are checked against the substitution; probe traces and extension counts per answer against the reference path. Exploration.",
          REFI),
